@@ -4,6 +4,7 @@ from mir import callee_name
 from terms import ISet, tstr, pstr, is_const, const_val
 from rules.util import *
 from rules import tables
+from rules import lzbuf
 from rules import c02
 from rules import deflate_cfg as dc
 
@@ -253,6 +254,8 @@ def run(ctx):
     rule_level_clamp(ctx, cfg, r4)
     r5 = ctx.rule("R01.5", "every flush_block result is checked", floor=4, config=cfg)
     c02.rule_result_discipline(ctx, cfg, r5)
+    r6 = ctx.rule("R01.6", "LZ token buffer: what the writers lay down (token bytes, flag bits, slots per flag byte) is what compress_lz_codes takes up", floor=10, config=cfg)
+    lzbuf.rule_lz_buffer(ctx, cfg, r6)
     r7 = ctx.rule("R01.7", "stored-block source position advances by exactly the bytes each block encoded", floor=2, config=cfg)
     rule_block_start(ctx, cfg, r7)
     from rules import c08
